@@ -124,6 +124,8 @@ class Node:
         return c["uq"] if c else None
 
     def is_call(self):
+        if self.d.get("inlined"):
+            return False
         return self.kind in ("CallExpr", "CXXMemberCallExpr", "CXXOperatorCallExpr",
                              "CXXConstructExpr", "CXXTemporaryObjectExpr", "UserDefinedLiteral")
 
@@ -174,9 +176,16 @@ class Node:
 
 
 def std_unwrap(n):
-    """Look through std::move / std::forward / std::launder / std::addressof-free wrappers."""
+    """Look through std::move / std::forward / std::launder wrappers and through calls of virtually inlined
+    helpers with a single return value."""
     while True:
         n = n.strip()
+        if n.d.get("inlined") and len(n.d.get("rets", [])) == 1:
+            n = n.fn.node(n.d["rets"][0])
+            continue
+        if n.kind == "DeclRefExpr" and n.d.get("d") in n.fn.bind_map():
+            n = n.fn.node(n.fn.bind_map()[n.d["d"]])
+            continue
         if n.kind == "CallExpr" and n.callee and n.callee["uq"] in (
                 "std::move", "std::forward", "std::launder", "std::as_const", "std::move_if_noexcept"):
             a = n.args
@@ -200,6 +209,9 @@ def path(n, fn=None):
         return ("this",)
     if k == "DeclRefExpr":
         dk = n.get("dk")
+        bm = n.fn.bind_map()
+        if n.d["d"] in bm:
+            return path(n.fn.node(bm[n.d["d"]]))
         if dk == "ParmVar":
             return ("p:%s#%d" % (n.n, n.d["d"]),)
         if dk in ("Var", "Decomposition", "Binding"):
@@ -399,6 +411,32 @@ class Fn:
 
     def all_nodes(self):
         return [self.node(i) for i in range(len(self._nodes))]
+
+    def bind_map(self):
+        """{param decl id: argument node} for the parameters of virtually inlined helpers that are never
+        reassigned inside the helper: such a parameter *is* its argument."""
+        bm = getattr(self, "_bind", None)
+        if bm is None:
+            bm = {}
+            assigned = set()
+            for d in self._nodes:
+                k = d.get("k")
+                if k in ("BinaryOperator", "CompoundAssignOperator") and str(d.get("op", "")).endswith("=") and d.get("op") not in ("==", "!=", "<=", ">="):
+                    t = self._nodes[d["c"][0]] if d.get("c") else None
+                    hops = 0
+                    while t is not None and t.get("k") in ("ImplicitCastExpr", "ParenExpr") and t.get("c") and hops < 5:
+                        t = self._nodes[t["c"][0]]; hops += 1
+                    if t is not None and t.get("k") == "DeclRefExpr":
+                        assigned.add(t.get("d"))
+                elif k == "UnaryOperator" and d.get("op") in ("++", "--"):
+                    t = self._nodes[d["c"][0]] if d.get("c") else None
+                    if t is not None and t.get("k") == "DeclRefExpr":
+                        assigned.add(t.get("d"))
+            for d in self._nodes:
+                if d.get("k") == "ParamBind" and d["d"] not in assigned:
+                    bm[d["d"]] = d["init"]
+            self._bind = bm
+        return bm
 
     def parent_map(self):
         if self._parent is None:
@@ -630,6 +668,11 @@ def load_unit(name, extra_flags=(), src=None, root=None, tag=""):
     with open(out) as f:
         d = json.load(f)
     os.unlink(out)
+    if not os.environ.get("FRG_NO_INLINE"):
+        from .inline import inline_unit
+        drop = inline_unit(d)
+        if drop:
+            d["functions"] = [f for f in d["functions"] if f["did"] not in drop]
     u = Unit(name, d, src)
     _unit_cache[key] = u
     return u
